@@ -3106,10 +3106,6 @@ func (o *Operand) Decode(decoder *Decoder) error {
 	}
 	o.GasLimit = Gas(gasLimit)
 
-	if err = o.GasLimit.Decode(decoder); err != nil {
-		return err
-	}
-
 	if err = o.Result.Decode(decoder); err != nil {
 		return err
 	}
@@ -3131,18 +3127,22 @@ func (o *OperandOrDeferredTransfer) Decode(decoder *Decoder) error {
 	isDeferredTransfer := firstByte == 1
 	if isOperand {
 		cLog(Cyan, "OperandOrDeferredTransfer is Operand")
+		o.Operand = &Operand{}
+		o.DeferredTransfer = nil
 		if err = o.Operand.Decode(decoder); err != nil {
 			return err
 		}
 		return nil
 	} else if isDeferredTransfer {
 		cLog(Cyan, "OperandOrDeferredTransfer is DeferredTransfer")
+		o.DeferredTransfer = &DeferredTransfer{}
+		o.Operand = nil
 		if err = o.DeferredTransfer.Decode(decoder); err != nil {
 			return err
 		}
 		return nil
 	}
-	return nil
+	return fmt.Errorf("invalid OperandOrDeferredTransfer discriminator %d", firstByte)
 }
 
 func (e *ExtrinsicData) Decode(d *Decoder) error {
